@@ -155,6 +155,7 @@ func init() {
 			return
 		}
 		// corpus: texts that crashed the pinned tree
+		c.editorCase(kitchenSink, map[string]any{"edit": "corpus"})
 		for _, t := range []string{"vars { number = balance(@a, USD) }", "send [USD 10] (source = @world destination = {1/0 to @a remaining to @b})",
 			"send [USD 1] (source = @a destination = {08% to @a remaining to @b})", "vars { $x }", "vars { monetary", "send [", "set_tx_meta("} {
 			c.editorCase(t, map[string]any{"edit": "corpus"})
